@@ -25,8 +25,32 @@ type Check struct {
 
 var registry = map[string]*Check{}
 
+// ruleAddenda: driver extensions added after the first build (each closes a hole a deliberate change slipped through); appended to Rule.
+var ruleAddenda = map[string]string{
+	"C01": "operators that re-bind a namespace prefix elsewhere in the document (an x:Assertion under a foreign binding plus a later element re-declaring x), reached in pairs at depth 2; group no-signing-key-published: every initial document and every depth-1 document under IdP metadata that publishes an encryption key only / an empty signing descriptor (nothing may be accepted)",
+	"C02": "group window-product-option-axes: the 4^5 product again with AllowIDPInitiated set, and for assertion-only signatures with the Response's Destination absent",
+	"C03": "lattice fields method (bearer / holder-of-key / sender-vouches on one or all confirmations; acceptance of non-bearer confirmations is DONT_CARE) and idpinit (AllowIDPInitiated)",
+	"C04": "a 'no SubjectConfirmation at all' value at the confirmation level; group middleware-acs: 0-2 flows started through samlsp.Middleware, every subset of their tracking cookies presented, 6x6 InResponseTo choices, AllowIDPInitiated, both layouts, POSTed to the real ServeACS",
+	"C06": "request kinds that select a registered non-POST endpoint by URL or index; axis reqextra (NameIDPolicy formats, SPNameQualifier, a Subject naming another principal) with a non-interference oracle: identity asserted for the same session must equal the one for the same request without that content",
+	"C07": "group rollover-sequences: all 27 length-3 re-keying sequences of the IdP (same entity ID, the SP object kept and handed the re-published metadata) and of the SP (IdP object kept), with and without encryption, a fresh login after every step",
+	"C08": "key descriptors listing a certificate chain (first certificate is the key holder's); 5 role-descriptor arrangements (leading/trailing artifact-only SPSSODescriptor, POST ACS in second position) for both launch kinds",
+	"C09": "group response-placements: payload (plain / deflated / deflate bombs of 11 and 64 MB) in the form field, the query string, both, GET - for ParseResponse and ValidateLogoutResponseRequest with an allocation bound; group encrypted-assertion-ciphertext-lengths: EncryptedAssertion whose key genuinely unwraps, 5 block algorithms x 2 key transports x 24 data lengths around every block boundary x 2 signing layouts",
+	"C13": "option 3: IdP logout endpoints advertising a ResponseLocation; group reconfiguration-sequences: ONE ServiceProvider value whose key pair and signature method are changed between messages (all sequences of <=3 (thorough 4) configurations out of 8, last message of each of the 7 kinds), every message verified against the configuration in force",
+	"C14": "form idp-response-sp-initiated: the peer string arrives inside the AuthnRequest (AssertionConsumerServiceURL next to a valid index; RelayState) and the form must post to the registered location",
+	"C15": "group metadata-endpoint-location-forms: 25 lexical forms of valid http(s) URLs (case of scheme/host, non-ASCII, blanks and braces, empty fragment/query, lower- and upper-case escapes, userinfo, IPv6, dot segments, IDN) x 8 endpoint positions x 4 bindings must survive a generation verbatim",
+	"C16": "group hand-set-lifetimes: codec and provider lifetimes set by hand (0, negative, 1 ns .. 25 h) x 9 session ages",
+	"C17": "one of the three protected URLs has reserved characters percent-encoded in its path (and starts with an encoded slash): it must come back verbatim",
+	"C18": "status values with nested PartialLogout / AuthnFailed under non-Success codes; group no-signing-key-published (metadata with an encryption key only / an empty signing descriptor: nothing is valid, whoever signed)",
+	"C20": "store alphabet includes a Get whose destination cannot hold the stored JSON (the error path of Get)",
+}
+
 // Register adds a check.
-func Register(c *Check) { registry[c.ID] = c }
+func Register(c *Check) {
+	if a := ruleAddenda[c.ID]; a != "" {
+		c.Rule += " Extensions: " + a
+	}
+	registry[c.ID] = c
+}
 
 // Get looks a check up.
 func Get(id string) *Check { return registry[id] }
